@@ -25,19 +25,29 @@ META = dict(
          "with one call per limiter failing late, exactly at the model's critical point). A further family runs without the "
          "coin override (real breaker, real coin) on a healthy Redis: drained bucket / exhausted window, then hundreds of "
          "further requests at frozen clocks - every request must still reach Redis and be decided as the model says "
-         "(denials and OverQuota codes are not breaker failures). A concurrent-use stage built with the race detector puts "
-         "many goroutines on one limiter at frozen clocks (requests for burst+1 tokens and with cancelled contexts must "
-         "never be granted, tokens granted within the second <= burst; per key exactly quota-1 Allowed, one HitQuota); a "
-         "race report is the disagreement C08:data-race.",
+         "(denials and OverQuota codes are not breaker failures). A two-outage family (drain the rescue bucket in outage 1, recover "
+         "through the monitor's ping, outage 2 in the same caller second) checks that the in-process bucket keeps its state. "
+         "Concurrent use (code -> spec): many goroutines on ONE limiter, in rounds of barrier-separated phases with clock steps "
+         "between them (one caller asking for burst+1 tokens, callers for 1 and 2 tokens, callers with cancelled contexts; "
+         "several takers per key on several keys), once with the binary built with the race detector (a race report is the "
+         "disagreement C08:data-race) and once, with more calls, without it; the driver only records the multiset of results "
+         "per phase and the number of script executions the server saw, and TLC (TokenLimitConc.tla / PeriodLimitConc.tla) decides "
+         "whether some sequential order of the calls is a behaviour of TokenLimit / PeriodLimit with exactly those results "
+         "(every order searched for rounds with few grants, the canonical order justified by the model-checked properties "
+         "AllowExact / DenialIdempotent otherwise; m concurrent takes of a key = PeriodLimit!Burst); hand-made rounds with a "
+         "known answer guard the acceptor against vacuity.",
     note="Trusted: TLC, miniredis 2.23.1 (Lua via gopher-lua, TTL by FastForward) as the Redis environment, the "
          "driver's barrier (after Up it waits, bounded, for the monitor's ping, reading redisAlive/monitorStarted "
-         "only as a barrier; the concurrent stage watches redisAlive to place one late failure - a direct call of the "
+         "only as a barrier; the concurrent recovery stage watches redisAlive to place one late failure - a direct call of the "
          "unexported failure handler startMonitor, what reserveN does when a script call fails - between the monitor's "
          "redisAlive := 1 and monitorStarted := false, a sub-microsecond window that natural traffic does not hit; its "
          "verdict is public: an EVAL of the limiter's key must reach Redis again within 8 s). The breaker inside redis.Redis has its coin forced to 'never reject' (H2) so that "
          "breaker rejections (C01) do not blur fallback/return. Not generated: server clock ahead of the caller "
          "clock (DESIGN 5), caller clock stepping backwards, requests between recovery and the monitor's ping, "
-         "context cancellation. Align() is covered for the window length handed to Redis and the resulting TTL (table of "
+         "context cancellation in sequential histories (cancelled callers take part in the concurrent-use stage; a denied one needs "
+         "no explanation, a granted one is judged like any grant). In the concurrent-use stage a script execution beyond the number of "
+         "calls (go-redis re-sending after a late reply) is admitted as an unobserved execution that may have taken tokens; a call "
+         "that never reached Redis although it was up is a disagreement. Align() is covered for the window length handed to Redis and the resulting TTL (table of "
          "PeriodLimit!AlignedWindow for the wall-clock seconds of the run, three zone offsets, four periods), not for "
          "histories across an aligned boundary (wall clock cannot be steered). Bound is stated per bucket (Redis bucket, rescue "
          "bucket): the rescue bucket starts full at the first outage, so no joint bound exists in the design.",
@@ -60,7 +70,7 @@ def mc(ctx):
             name="PeriodLimit-mc", timeout=900, workers=W, heap="2g")
     K = dict(Configs="{<<1,1>>, <<3,2>>, <<2,3>>}", MaxN=2, MaxStep=2)
     cfg = core.render_cfg(spec="Spec", constants=K, invariants=["TypeOK", "ScriptIsIdeal", "RedisIsIdeal", "Bound"],
-                          properties=["Fallback", "Return", "OnlyPingReturns"], constraints=["Bound_"])
+                          properties=["Fallback", "Return", "OnlyPingReturns", "AllowExact", "DenialIdempotent"], constraints=["Bound_"])
     ctx.tlc("TokenLimit", cfg, constants=K, defs=dict(Bound_="Len(glog) <= %d /\\ now <= %d" % ((3, 3) if ctx.quick else (3, 4))),
             name="TokenLimit-mc", timeout=900, workers=W, heap="3g")
 
@@ -125,42 +135,268 @@ def two_outages(ctx, binp):
     ctx.replay(PKG, OVERLAY, "^TestVerifC08Token$", path, label="t2o", shards=16, binp=binp)
 
 
-def race_stage(ctx, binp_race):
-    """Concurrent callers on one limiter, binary built with -race.  Run outside ctx.replay because a race report
-    makes the test binary exit non-zero; the report itself is the disagreement C08:data-race."""
-    import json, subprocess, os
-    big = not ctx.quick
-    cfgs = [dict(kind="token", rate=5, burst=10, ones=10, twos=3, cancelled=2, calls=(600 if big else 250), rounds=(6 if big else 3)),
-            dict(kind="token", rate=1, burst=1, ones=8, twos=2, cancelled=1, calls=(400 if big else 150), rounds=(4 if big else 2)),
-            dict(kind="period", quota=5, period=3600, keys=4, takers=6, calls=(300 if big else 120), rounds=(4 if big else 2)),
-            dict(kind="period", quota=1, period=3600, keys=2, takers=8, calls=(200 if big else 80), rounds=(3 if big else 2))]
-    path, _ = ctx.write_cases("race.ndjson", cfgs)
-    outp = os.path.join(ctx.build, "verdicts-race-0.ndjson")
-    logp = os.path.join(ctx.build, "race-0.out")
+# ---------------------------------------------------------------- concurrent use (code -> spec)
+
+def tla(v):
+    """python value -> TLA+ literal (records, sequences, strings, integers, booleans)"""
+    if isinstance(v, bool):
+        return "TRUE" if v else "FALSE"
+    if isinstance(v, int):
+        return str(v)
+    if isinstance(v, str):
+        return '"%s"' % v
+    if isinstance(v, (list, tuple)):
+        return "<<" + ", ".join(tla(x) for x in v) + ">>"
+    if isinstance(v, dict):
+        return "[" + ", ".join("%s |-> %s" % (k, tla(x)) for k, x in v.items()) + "]"
+    raise TypeError(v)
+
+
+def conc_cases(ctx, heavy):
+    """Inputs of the concurrent-use stage: caller mixes, phases and clock steps between them (seeded).  heavy: the
+    plain binary (many calls); otherwise the binary built with the race detector (fewer calls, same shapes)."""
+    import random
+    rnd = random.Random(ctx.seed * 7919 + (1 if heavy else 0))
+    mul = (4 if heavy else 1) * (1 if ctx.quick else 4)
+
+    def ticks(n, maxd, frozen=0.5):
+        out = [[0, 0]]
+        for _ in range(n - 1):
+            if rnd.random() < frozen:
+                out.append([0, 0])
+            else:
+                dc = rnd.randint(1, maxd)
+                out.append([dc, rnd.randint(0, dc)])       # the server clock never overtakes the caller clock
+        return out
+
+    def advs(n, period):
+        return [0] + [rnd.choice([0, 0, 1, period // 2, period - 1, period, period + 1]) for _ in range(n - 1)]
+
+    cfgs = []
+    # drain: the bucket is empty after the first few calls of a phase, the bound burst + rate*t is what is exercised
+    cfgs.append(dict(kind="token", rate=5, burst=10, ones=10, twos=3, cancelled=2, per=4, ticks=ticks(6, 3), rounds=3 * mul))
+    # roomy: demand of a round < burst - every request for 1 or 2 tokens must be granted, burst+1 never
+    cfgs.append(dict(kind="token", rate=1, burst=600, ones=10, twos=3, cancelled=2, per=3, ticks=ticks(6, 2, 0.7), rounds=4 * mul))
+    cfgs.append(dict(kind="token", rate=3, burst=40, ones=10, twos=3, cancelled=2, per=3, ticks=ticks(6, 4), rounds=3 * mul))
+    cfgs.append(dict(kind="token", rate=1, burst=1, ones=8, twos=2, cancelled=1, per=3, ticks=ticks(5, 2), rounds=2 * mul))
+    cfgs.append(dict(kind="period", quota=5, period=3600, keys=4, takers=6, per=5, advs=advs(5, 3600), rounds=2 * mul))
+    cfgs.append(dict(kind="period", quota=1, period=7, keys=2, takers=8, per=4, advs=advs(5, 7), rounds=2 * mul))
+    cfgs.append(dict(kind="period", quota=30, period=60, keys=3, takers=6, per=3, advs=advs(5, 60), rounds=2 * mul))
+    return cfgs
+
+
+def conc_run(ctx, binp, label, race):
+    """Run the recording driver TestVerifC08Race (no ctx bookkeeping here: may run in a background thread).  Outside
+    ctx.replay because a race report makes the test binary exit non-zero."""
+    import subprocess, os, time
+    path, _ = ctx.write_cases(label + ".ndjson", conc_cases(ctx, heavy=not race))
+    outp = os.path.join(ctx.build, "verdicts-%s-0.ndjson" % label)
+    logp = os.path.join(ctx.build, "%s-0.out" % label)
+    trp = os.path.join(ctx.build, "trace-%s.ndjson" % label)
     e = dict(os.environ)
     e.update(core.GOENV)
-    e.update(VERIF_SEED=str(ctx.seed), VERIF_TIER=ctx.tier, VERIF_CASES=path, VERIF_OUT=outp, VERIF_SHARD="0", VERIF_SHARDS="1",
-             GORACE="halt_on_error=0")
-    import time
+    e.update(VERIF_SEED=str(ctx.seed), VERIF_TIER=ctx.tier, VERIF_CASES=path, VERIF_OUT=outp, VERIF_TRACE=trp, VERIF_SHARD="0",
+             VERIF_SHARDS="1", GORACE="halt_on_error=0", GOMAXPROCS="8")
     t0 = time.time()
     with open(logp, "w") as fo:
         try:
-            p = subprocess.run([binp_race, "-test.run", "^TestVerifC08Race$", "-test.count=1", "-test.timeout", "900s"],
+            p = subprocess.run([binp, "-test.run", "^TestVerifC08Race$", "-test.count=1", "-test.timeout", "900s"],
                                cwd=os.path.join(core.REPO, "lib/limit"), env=e, stdout=fo, stderr=subprocess.STDOUT, timeout=1000)
             rc = p.returncode
         except subprocess.TimeoutExpired:
-            raise core.Infra("race stage timed out")
-    out = open(logp, errors="replace").read()
-    core.log("race stage: rc=%s %.1fs" % (rc, time.time() - t0))
+            rc = None
+    return dict(label=label, race=race, rc=rc, cases=path, outp=outp, logp=logp, trace=trp, wall=time.time() - t0)
+
+
+def conc_collect(ctx, run):
+    """Bookkeeping of one recording run; a race-detector report is the disagreement C08:data-race.  Returns the
+    recorded rounds."""
+    import json, os
+    if run["rc"] is None:
+        raise core.Infra("concurrent-use stage %s timed out" % run["label"])
+    out = open(run["logp"], errors="replace").read()
+    core.log("concurrent-use stage %s: rc=%s %.1fs" % (run["label"], run["rc"], run["wall"]))
     raced = "WARNING: DATA RACE" in out
     if raced:
         i = out.index("WARNING: DATA RACE")
         rep = out[i:i + 2500]
         frames = [l.strip() for l in rep.splitlines() if "/lib/limit/" in l or "/lib/store/" in l][:6]
         ctx.disagree("C08:data-race", "race detector: concurrent callers on one limiter; frames: %s" % "; ".join(frames),
-                     case=json.dumps(cfgs[0]), source="race")
-    ctx.collect(outp, 0 if raced else rc, out, path, "race", "race")
-    ctx.go_runs.append(dict(name="race", pkg=PKG, run="^TestVerifC08Race$", race=True, rc=rc, wall_s=round(time.time() - t0, 2)))
+                     case=open(run["cases"]).readline().strip(), source=run["label"])
+    ctx.collect(run["outp"], 0 if raced else run["rc"], out, run["cases"], run["label"], run["label"])
+    ctx.go_runs.append(dict(name=run["label"], pkg=PKG, run="^TestVerifC08Race$", race=run["race"], rc=run["rc"], wall_s=round(run["wall"], 2)))
+    rounds = [json.loads(l) for l in open(run["trace"]) if l.strip()] if os.path.exists(run["trace"]) else []
+    for r in rounds:
+        r["from"] = run["label"]
+    return rounds
+
+
+def _phase(p, token, canon=False):
+    q = dict(extra=max(0, p["evals"] - p["calls"]), lost=max(0, p["calls"] - p["evals"]))
+    if token:
+        q.update(dc=p["dc"], ds=p["ds"], canon=canon, obs=[dict(n=o["n"], live=o["live"], granted=o["granted"], cnt=o["cnt"]) for o in p["obs"]])
+    else:
+        q.update(d=p["d"], obs=[dict(k=o["k"], m=o["m"], allowed=o["allowed"], hit=o["hit"], over=o["over"]) for o in p["obs"]])
+    return q
+
+
+def _orders(p):
+    """size of the search for one phase when the grants are taken in every order"""
+    n = 1
+    for o in p["obs"]:
+        if o["granted"]:
+            n *= o["cnt"] + 1
+    return n
+
+
+def _tphase(dc, ds, obs):
+    return dict(dc=dc, ds=ds, calls=0, evals=0, obs=[dict(n=n, live=True, granted=g, cnt=c) for n, g, c in obs])
+
+
+def conc_validate(ctx, rounds):
+    """TLC decides for every recorded round whether some sequential order of the calls is a behaviour of TokenLimit /
+    PeriodLimit with exactly the recorded results (spec/TokenLimitConc.tla, spec/PeriodLimitConc.tla).  Hand-made rounds
+    with a known answer ride along as the vacuity guard of the acceptor (looked at only if nothing else disagrees)."""
+    import json, copy
+    tok = [r for r in rounds if r["kind"] == "token"]
+    per = [r for r in rounds if r["kind"] == "period"]
+    before = len(ctx.disagreements)
+    guard = []                                            # (kind, index, must be accepted, what)
+    if tok:
+        r0 = copy.deepcopy(tok[0])
+        r0["phases"][0]["obs"].append(dict(n=r0["burst"] + 1, live=True, granted=True, cnt=1))
+        syn = [(r0, False, "a granted request for burst+1 tokens added to a recorded round"),
+               (dict(rate=2, burst=3, phases=[_tphase(0, 0, [(1, True, 4)])]), False, "burst+1 tokens granted within one second"),
+               (dict(rate=2, burst=3, phases=[_tphase(0, 0, [(1, True, 3), (1, False, 5)]), _tphase(1, 1, [(1, True, 3)])]), False,
+                "burst, then rate+1 tokens granted one second later"),
+               (dict(rate=2, burst=3, phases=[_tphase(0, 0, [(1, True, 3), (1, False, 5)]), _tphase(1, 1, [(2, True, 1), (2, False, 7), (1, False, 1)])]),
+                True, "burst, then rate tokens granted one second later"),
+               (dict(rate=2, burst=3, phases=[_tphase(0, 0, [(1, True, 1), (1, False, 1)])]), False, "a request denied although tokens are left in every order"),
+               (dict(rate=2, burst=3, phases=[_tphase(0, 0, [(2, True, 1), (2, False, 1), (1, True, 1)])]), True, "2 tokens granted, 2 denied, then 1 granted")]
+        for r, acc, what in syn:
+            for canon in (False, True):                   # every order / the canonical order only: same answer
+                r = dict(copy.deepcopy(r), kind="token", synthetic=what, canon=canon)
+                tok.append(r)
+                guard.append(("token", len(tok), acc, what + (" [canonical order]" if canon else "")))
+    if per:
+        def pph(d, a, h, o):
+            return dict(d=d, calls=0, evals=0, errors=0, obs=[dict(k="k0", m=a + h + o, allowed=a, hit=h, over=o)])
+        syn = [(dict(quota=3, period=10, phases=[pph(0, 2, 1, 4), pph(10, 2, 1, 0)]), True, "quota-1 Allowed, one HitQuota, rest OverQuota; again after expiry"),
+               (dict(quota=3, period=10, phases=[pph(0, 3, 0, 4)]), False, "quota takes Allowed"),
+               (dict(quota=3, period=10, phases=[pph(0, 2, 1, 4), pph(9, 1, 0, 0)]), False, "Allowed again one second before the window's expiry")]
+        for r, acc, what in syn:
+            r.update(kind="period", synthetic=what)
+            per.append(r)
+            guard.append(("period", len(per), acc, what))
+    verdict = {}
+    for kind, rs, module in (("token", tok, "TokenLimitConc"), ("period", per, "PeriodLimitConc")):
+        if not rs:
+            continue
+        token = kind == "token"
+        if token:
+            for r in rs:
+                r.setdefault("canon", max(_orders(p) for p in r["phases"]) > 64)
+            ctx.counters["concv.token.rounds-searched-in-every-order"] = len([r for r in rs if not r["canon"] and "synthetic" not in r])
+            K = dict(Configs="{" + ", ".join(sorted({"<<%d, %d>>" % (r["rate"], r["burst"]) for r in rs})) + "}", MaxN=1, MaxStep=1,
+                     Rounds=tla([dict(rate=r["rate"], burst=r["burst"], phases=[_phase(p, True, r["canon"]) for p in r["phases"]]) for r in rs]))
+        else:
+            keys = sorted({o["k"] for r in rs for p in r["phases"] for o in p["obs"]})
+            K = dict(Keys="{" + ", ".join('"%s"' % k for k in keys) + "}", MaxAdv=1, MaxBurst=2,
+                     Configs="{" + ", ".join(sorted({"<<%d, %d>>" % (r["quota"], r["period"]) for r in rs})) + "}",
+                     Rounds=tla([dict(quota=r["quota"], period=r["period"], phases=[_phase(p, False) for p in r["phases"]]) for r in rs]))
+        cfg = core.render_cfg(spec="CSpec", constants=K, invariants=["Accept", "Stuck"], view="CView")
+        res = ctx.tlc(module, cfg, constants=K, name="conc-" + kind, timeout=900, workers=W, heap="3g")
+        accepted, stuck = set(), {}
+        for line in res.printed:
+            d = json.loads(line)
+            if "accept" in d:
+                accepted.add(d["accept"])
+            elif "stuck" in d:
+                stuck.setdefault(d["stuck"], []).append(d)
+        for i, r in enumerate(rs, 1):
+            verdict[(kind, i)] = i in accepted
+            if i in accepted or "synthetic" in r:
+                continue
+            if i not in stuck:
+                raise core.Infra("%s: round %d neither accepted nor reported as stuck" % (module, i))
+            key, msg = (conc_describe_token if token else conc_describe_period)(r, stuck[i])
+            ctx.disagree(key, msg, case=json.dumps(r, separators=(",", ":")), source=r.get("from", "conc"))
+        n = len([r for r in rs if "synthetic" not in r])
+        ctx.traces += n
+        ctx.counters["concv.%s.rounds-validated" % kind] = n
+        ctx.counters["concv.%s.calls" % kind] = sum(sum(o.get("cnt", o.get("m", 0)) for o in p["obs"]) for r in rs if "synthetic" not in r for p in r["phases"])
+        ctx.counters["concv.%s.resent-executions" % kind] = sum(max(0, p["evals"] - p["calls"]) for r in rs for p in r["phases"])
+    if len(ctx.disagreements) == before:
+        for kind, i, acc, what in guard:
+            if verdict.get((kind, i)) != acc:
+                raise core.Infra("vacuous acceptor (%s): hand-made round '%s' is %s" % (kind, what, "rejected" if acc else "accepted"))
+        errs = sum(p.get("errors", 0) for r in per for p in r["phases"])
+        if errs:        # cannot happen: a take that returned an error leaves its key unexplained
+            raise core.Infra("%d takes returned an error in accepted rounds" % errs)
+    ctx.notes["concurrent-use"] = "%d token rounds and %d period rounds recorded from the real limiters, each accepted by TLC iff some order of " \
+        "the calls is a behaviour of TokenLimit / PeriodLimit with the recorded results" % (
+            len([r for r in tok if "synthetic" not in r]), len([r for r in per if "synthetic" not in r]))
+
+
+def conc_describe_token(r, stuck):
+    """The furthest TLC got in explaining the round: latest phase, fewest results left."""
+    best = min(stuck, key=lambda d: (-d["ph"], sum(d["rem"])))
+    p = r["phases"][best["ph"] - 1]
+    left = [(o, c) for o, c in zip(p["obs"], best["rem"]) if c > 0]
+    sec = sum(q["dc"] for q in r["phases"][:best["ph"]])
+    res = "; ".join("%d x AllowN(n=%d%s)=%s" % (o["cnt"], o["n"], "" if o["live"] else ", cancelled ctx", str(o["granted"]).lower()) for o in p["obs"])
+    if any(o["granted"] for o, _ in left):
+        left = [(o, c) for o, c in left if o["granted"]]
+    else:
+        left = [(o, c) for o, c in left if o["live"] and o["n"] <= best["avail"]] or left
+    rest = "; ".join("%d x n=%d %s" % (c, o["n"], "granted" if o["granted"] else "denied") for o, c in left)
+    where = "rate=%d burst=%d, %s concurrent callers on one limiter, phase %d of %d at caller second %d (%s)" % (
+        r["rate"], r["burst"], r.get("callers", "?"), best["ph"], len(r["phases"]), sec, r.get("from", ""))
+    if not left:
+        lost = max(0, p["calls"] - p["evals"])
+        return "C08:token:concurrent:route", "%s: %d of %d calls never reached Redis although it was up (results: %s)" % (where, lost, p["calls"], res)
+    if any(o["granted"] and o["n"] > r["burst"] for o, _ in left):
+        key = "C08:token:concurrent:granted-impossible"
+    elif any(o["granted"] for o, _ in left):
+        key = "C08:token:concurrent:bound"
+    else:
+        key = "C08:token:concurrent:denied-available"
+    return key, "%s: results %s - no order of these calls is a behaviour of TokenLimit; after the explainable ones the bucket holds %d " \
+                "tokens and there remain: %s" % (where, res, best["avail"], rest)
+
+
+def conc_describe_period(r, stuck):
+    best = min(stuck, key=lambda d: (-d["ph"], len(d["want"])))
+    p = r["phases"][best["ph"] - 1]
+    where = "quota=%d period=%d, %s concurrent takers per key, phase %d of %d at server second %d (%s)" % (
+        r["quota"], r["period"], r.get("takers", "?"), best["ph"], len(r["phases"]), sum(q["d"] for q in r["phases"][:best["ph"]]), r.get("from", ""))
+    if not best["want"]:
+        return "C08:period:concurrent:route", "%s: %d of %d takes never reached Redis although it was up" % (where, p["calls"] - p["evals"], p["calls"])
+    parts = []
+    for w in best["want"]:
+        o, b = p["obs"][w["j"] - 1], w["bag"]
+        parts.append("key %s, %d takes: Allowed x%d, HitQuota x%d, OverQuota x%d; specification %d, %d, %d" % (
+            o["k"], o["m"], o["allowed"], o["hit"], o["over"], b["allowed"], b["hit"], b["over"]))
+    key = "C08:period:concurrent:error" if p.get("errors") else "C08:period:concurrent:codes"
+    return key, "%s: %s%s" % (where, " | ".join(parts), (" (%d takes returned an error)" % p["errors"]) if p.get("errors") else "")
+
+
+def conc_record(ctx, binp):
+    """Both recordings of the concurrent-use stage: the binary built with the race detector, then the plain binary
+    with more calls.  No ctx bookkeeping besides the build: runs in a background thread next to the other stages."""
+    runs = [conc_run(ctx, ctx.go_build(PKG, OVERLAY, race=True, name="c08race"), "race", True)]
+    runs.append(conc_run(ctx, binp, "conc", False))
+    return runs
+
+
+def conc_stage(ctx, runs):
+    """Concurrent use of one limiter: what the two recordings saw, judged by TLC."""
+    rounds = []
+    for run in runs:
+        rounds += conc_collect(ctx, run)
+    if not rounds:
+        raise core.Infra("concurrent-use stage recorded nothing")
+    conc_validate(ctx, rounds)
 
 
 def concurrent(ctx, binp):
@@ -200,10 +436,12 @@ def one_per_prefix(cases):
 def run(ctx):
     from concurrent.futures import ThreadPoolExecutor
     ex = ThreadPoolExecutor(1)
-    race_build = ex.submit(lambda: ctx.go_build(PKG, OVERLAY, race=True, name="c08race"))   # ~20 s, in the background
+    # the concurrent-use recordings (build with the race detector ~20 s, two recording runs) are made in the background;
+    # the bookkeeping and the validation of what they recorded happen at the end, in this thread
+    binp = ctx.go_build(PKG, OVERLAY, name="c08drv")
+    conc_runs = ex.submit(conc_record, ctx, binp)
     mc(ctx)
     mc_monitor(ctx)
-    binp = ctx.go_build(PKG, OVERLAY, name="c08drv")
     ctx.assumptions += ["server clock never ahead of the caller clock (DESIGN 5)", "caller clock monotone",
                         "breaker coin forced to never-reject (H2)"]
     if ctx.quick:
@@ -245,7 +483,7 @@ def run(ctx):
     real_breaker(ctx, binp)
     two_outages(ctx, binp)
     concurrent(ctx, binp)
-    race_stage(ctx, race_build.result())
+    conc_stage(ctx, conc_runs.result())
 
 
 def align(ctx, binp):
@@ -262,7 +500,7 @@ def replay(ctx, rp):
     path, _ = ctx.write_cases("replay.ndjson", [rp["case"]])
     key = rp.get("key") or ""
     if key.startswith("C08:data-race") or ":concurrent:" in key:
-        return race_stage(ctx, ctx.go_build(PKG, OVERLAY, race=True, name="c08race"))
+        return conc_stage(ctx, conc_record(ctx, ctx.go_build(PKG, OVERLAY, name="c08drv")))
     if key.startswith("C08:token:no-return:concurrent"):
         return concurrent(ctx, ctx.go_build(PKG, OVERLAY, name="c08drv"))
     if key.startswith("C08:period:align"):
